@@ -142,12 +142,13 @@ func Spec(prop, tier string) *core.CheckSpec {
 				{Engine: "crash", Mode: "src", Runs: n(20000, 3000000), Millis: ms(25000, 500000)},
 				{Engine: "crash", Mode: "lib", Runs: n(30000, 3000000), Millis: ms(25000, 500000)},
 				{Engine: "crash", Mode: "ramp", Runs: n(600, 60000), Millis: ms(30000, 600000), Workers: 6, HangS: 180, Chunk: 100},
+				{Engine: "crash", Mode: "bin", Runs: n(15000, 1500000), Millis: ms(12000, 300000), Note: "string.dump of a generated program with corrupted bytes (and 8-byte length fields set to huge values) given to load() under limits: loading ends in a function, an error or a kill - no panic, no crash, no allocation sized by a made-up length (running corrupted byte code is outside the property)"},
 				{Engine: "model", Mode: "close-crash", Runs: n(12000, 1500000), Millis: ms(12000, 300000), Note: "SimLua programs (coroutines, to-be-closed values, handlers that yield or raise, coroutine.close at any point) under the controlled scheduler; only escaping panics, process crashes, dead-locks and hangs count here"},
 				{Engine: "model", Mode: "coro-crash", Runs: n(12000, 1500000), Millis: ms(12000, 300000), Note: "as above, coroutine-heavy shapes"},
 			},
 			Real:   realAll,
 			Stub:   []string{"limits (kill points) and corrupted bytes come from the tape; the operating system is real (working directory moved to a scratch directory, destructive functions excluded from the lib workload)"},
-			Assume: []string{"binary chunks (string.dump output) are not corrupted here: the manual allows load to misbehave on malicious binary chunks", "os.exit, os.execute, io.popen, os.remove/rename, dofile/loadfile/require and other file-opening functions are excluded from the lib workload"},
+			Assume: []string{"corrupted binary chunks are only loaded, never run: the manual allows byte code that was tampered with to misbehave when executed, and golua has no byte-code verifier", "os.exit, os.execute, io.popen, os.remove/rename, dofile/loadfile/require and other file-opening functions are excluded from the lib workload"},
 		}
 	case "C20":
 		return &core.CheckSpec{
